@@ -16,6 +16,13 @@ int shim_fault_hit = 0;      /* set when the fault fired */
 char shim_fault_where[48];
 long shim_led_types = 0, shim_led_comms = 0, shim_led_infos = 0, shim_led_files = 0, shim_led_reqs = 0;
 long shim_ncoll = 0, shim_nindep = 0;
+/* livelock guard: the board cannot see ranks that keep making matching collective calls for ever */
+static long shim_case_coll = 0, shim_coll_limit = 0;
+static void coll_tick(void)
+{
+    if (!shim_coll_limit) { const char *e = getenv("VX_MAX_COLL"); shim_coll_limit = e ? atol(e) : 200000; }
+    if (++shim_case_coll > shim_coll_limit) { char m[128]; snprintf(m, sizeof m, "LIVELOCK: more than %ld collective calls in one case", shim_coll_limit); board_fail(5, m); }
+}
 int shim_trace_on = 0;
 char shim_trace[8192]; int shim_trace_len = 0;
 
@@ -34,6 +41,7 @@ void shim_init(void)
 
 void shim_case_reset(int fault_n, int fault_class)
 {
+    shim_case_coll = 0;
     shim_inj = 0; shim_fault_n = fault_n; shim_fault_class = fault_class; shim_fault_hit = 0; shim_fault_where[0] = 0;
     shim_trace_len = 0; shim_trace[0] = 0;
 }
@@ -105,8 +113,8 @@ static int inject(const char *what)
     return 0;
 }
 
-#define COLL(cls, sig, comm, name) do { shim_ncoll++; board_coll((cls), (sig), comm_members(comm), (name)); } while (0)
-#define FCOLL(cls, sig, fh, name) do { shim_ncoll++; board_coll((cls), (sig), fh_members(fh), (name)); } while (0)
+#define COLL(cls, sig, comm, name) do { shim_ncoll++; coll_tick(); board_coll((cls), (sig), comm_members(comm), (name)); } while (0)
+#define FCOLL(cls, sig, fh, name) do { shim_ncoll++; coll_tick(); board_coll((cls), (sig), fh_members(fh), (name)); } while (0)
 
 /* ---------------- communicator collectives ---------------- */
 int MPI_Allreduce(const void *s, void *r, int c, MPI_Datatype t, MPI_Op o, MPI_Comm m)
